@@ -63,7 +63,7 @@ def dynamic_options(s, e, wide=True):
     return out
 
 
-def enumerate_candidates(spec, wide=True, limit=None, task_lo=None, task_hi=None, rng=None):
+def enumerate_candidates(spec, wide=True, limit=None, task_lo=None, task_hi=None, rng=None, dyn_wide=True):
     """yield candidate dicts over the grid of the Spec (product space).  With
     `limit`, a uniform sample of about that size is drawn using rng."""
     H = spec["problem"].get("horizon")
@@ -96,7 +96,7 @@ def enumerate_candidates(spec, wide=True, limit=None, task_lo=None, task_hi=None
         lists = []
         for r in dyn_reqs:
             t = cand["tasks"][r["task"]]
-            lists.append(dynamic_options(t["start"], t["end"], wide) if t["scheduled"] else [(0, 0)])
+            lists.append(dynamic_options(t["start"], t["end"], wide or dyn_wide) if t["scheduled"] else [(0, 0)])
         for combo in itertools.product(*lists):
             c2 = dict(cand)
             c2["dyn"] = {f"{r['task']}|{r['resource']}": list(d) for r, d in zip(dyn_reqs, combo)}
